@@ -154,6 +154,40 @@ pub fn run(ctx: &Ctx, rep: &mut Report) {
                 }
             };
             rep.count("tokenizations_compared", 1);
+            // on-demand splits of the full-field result into (a) a new list and (b) a list that last held an analysis
+            // made under the narrow request: the parts carry the fields of the list that is split
+            if ti % 4 == 0 {
+                let mut fresh_out = sudachi::prelude::MorphemeList::empty(&world.dict);
+                let mut used_out = sudachi::prelude::MorphemeList::empty(&world.dict);
+                let _ = guard(|| {
+                    let mut narrow = sudachi::analysis::stateful_tokenizer::StatefulTokenizer::new(&world.dict, Mode::C);
+                    narrow.set_subset(subset_of(bits & 0x005));
+                    narrow.reset().push_str(&text);
+                    narrow.do_tokenize()?;
+                    used_out.collect_results(&mut narrow)
+                });
+                for k in 0..full_t.list.len().min(10) {
+                    for sm in [Mode::A, Mode::B] {
+                        fresh_out.clear();
+                        used_out.clear();
+                        let r = guard(|| -> Result<(Vec<[String; 10]>, Vec<[String; 10]>), sudachi::error::SudachiError> {
+                            full_t.list.split_into(sm, k, &mut fresh_out)?;
+                            full_t.list.split_into(sm, k, &mut used_out)?;
+                            Ok(((0..fresh_out.len()).map(|i| field_values(fresh_out.get(i).get_word_info())).collect(), (0..used_out.len()).map(|i| field_values(used_out.get(i).get_word_info())).collect()))
+                        });
+                        match r {
+                            Ok(Ok((a, b))) => {
+                                rep.count("splits_into_used_lists_compared", 1);
+                                if a != b {
+                                    rep.violation("field_differs", "split_into", &format!("morpheme {} split({}) into a new list gives {:?}, into a list that had held an analysis with fewer fields {:?}", k, mode_name(sm), a.iter().map(|x| (x[0].clone(), x[3].clone())).collect::<Vec<_>>(), b.iter().map(|x| (x[0].clone(), x[3].clone())).collect::<Vec<_>>()), "", scen());
+                                }
+                            }
+                            Ok(Err(_)) => {}
+                            Err(p) => rep.violation("accessor_panic", &p.site, &format!("split_into a used list: {}", p.msg), "", scen()),
+                        }
+                    }
+                }
+            }
             if let Some(m) = check_partition(&text, &os, 0, text.len()) {
                 rep.violation("partition", "subset analysis", &m, "", scen());
                 continue;
